@@ -278,7 +278,12 @@ func (dc *directoryCache) Get(key string, opts ...Option) (Reader, error) {
 }
 
 func (dc *directoryCache) Add(key string, opts ...Option) (Writer, error) {
-	if dc.isClosed() {
+	// Keep the cache from being closed until the temporary file is created.
+	// Otherwise the file can be created while Close is removing the cache
+	// directory and the directory is left behind after Close.
+	dc.closedMu.RLock()
+	defer dc.closedMu.RUnlock()
+	if dc.closed {
 		return nil, fmt.Errorf("cache is already closed")
 	}
 
